@@ -25,6 +25,11 @@ func (p *Plenc) Marshal(data []byte, value interface{}) ([]byte, error) {
 		if typ.Kind() == reflect.Map {
 			ptr = *(*unsafe.Pointer)(ptr)
 		}
+	} else if typ.Kind() == reflect.Struct && isDirectIface(typ) {
+		// A struct whose only content is a single pointer is stored in the
+		// interface directly rather than via a pointer to a copy. The codec
+		// wants a pointer to the struct, so point at the interface data word.
+		ptr = unsafe.Pointer(&unpackEFace(value).data)
 	}
 
 	c, err := p.CodecForType(typ)
@@ -55,4 +60,18 @@ func (p *Plenc) Unmarshal(data []byte, value interface{}) error {
 
 	_, err = c.Read(data, unsafe.Pointer(rv.Pointer()), c.WireType())
 	return err
+}
+
+// isDirectIface reports whether values of type typ are stored directly in the
+// data word of an interface, rather than the data word pointing to the value.
+func isDirectIface(typ reflect.Type) bool {
+	switch typ.Kind() {
+	case reflect.Ptr, reflect.Map, reflect.Chan, reflect.Func, reflect.UnsafePointer:
+		return true
+	case reflect.Struct:
+		return typ.NumField() == 1 && isDirectIface(typ.Field(0).Type)
+	case reflect.Array:
+		return typ.Len() == 1 && isDirectIface(typ.Elem())
+	}
+	return false
 }
